@@ -1,11 +1,26 @@
 // Package c13 checks property C13: VM instructions compute what the NeoVM specification says
 // (differential execution of pkg/vm against the independent specification interpreter harness/vmref),
-// and execution is deterministic (same script twice: same state, stack, gas).
+// and execution is deterministic (the same script twice: same state, result stack, error text and gas).
+//
+// Registered checks:
+//
+//	single  one instruction under test behind a prologue that builds its operands from boundary pools
+//	seq     short structured programs (slots as variables, IF/ELSE, loops, CALL/CALLA subroutines, TRY/CATCH/FINALLY,
+//	        THROW, engine exceptions, struct clone-on-assign patterns, stack shuffles)
+//	pyxval  the specification's own arithmetic against Python integers on a fixed table (skipped with a label when
+//	        python3 is missing)
+//
+// Oracle (checkScript): vmref.Run(script) gives HALT + result stack, FAULT, or UNCERTAIN (+tag). The real VM is run twice
+// (vm.New, price getter = fee.Opcode, unlimited gas, LoadScript, Run). HALT/FAULT must agree; on HALT the result stacks
+// must agree item by item in type, value, structure and aliasing of items with identity (Buffer, Array, Struct, Map).
+// UNCERTAIN runs and runs that touched a "dev:" class (see vmref) are only checked for determinism and are counted
+// under the labels "excluded:<tag>"; C13_STRICT_DEV=1 compares the dev: classes too (they then fail on the current tree,
+// see TestProbeCandidates).
 package c13
 
 import (
 	"fmt"
-	"math/big"
+	"os"
 	"sort"
 	"strings"
 
@@ -28,7 +43,7 @@ type Case struct {
 	NT     bool     `json:"nt,omitempty"`    // generator-side part of the non-trivial rule (boundary / negative operand)
 }
 
-const stepBudget = 3000
+const stepBudget = 12000
 
 type realRun struct {
 	state vmstate.State
@@ -174,7 +189,7 @@ func checkScript(c Case, o *vt.Obs) error {
 		o.Label("excluded:" + ref.Why)
 		return nil
 	}
-	if dev := devTags(ref.Tags); len(dev) > 0 {
+	if dev := devTags(ref.Tags); len(dev) > 0 && os.Getenv("C13_STRICT_DEV") == "" {
 		// documented deviation classes (reported as candidates, see known deviations in the package doc): not compared
 		for _, t := range dev {
 			o.Label("excluded:" + t)
@@ -238,5 +253,3 @@ func limitsAgree() error {
 	}
 	return nil
 }
-
-var _ = big.NewInt
